@@ -49,6 +49,8 @@ def build(chk):
     c_template_matching(chk)
     c_eqWall(chk)
     c_maxAl(chk)
+    from .common import template_frame
+    template_frame(chk)
 
 
 def c_findTm(chk):
